@@ -106,6 +106,7 @@ public:
         sh->next_unit = 0; sh->units_done = 0; sh->nviol = 0; sh->capped = 0;
         for (auto &c : sh->counters) c = 0;
         for (auto &c : sh->crumbs) { c.unit = 0; c.sub = 0; c.variant = 0; c.beat = 0; c.active = 0; c.text[0] = 0; }
+        if (const char *le = getenv("VR_LEAK_EVERY")) leak_check_every = (uint64_t) atoll(le);
         char tmpl[] = "/dev/shm/vr_viol_XXXXXX";
         int fd = mkstemp(tmpl);
         if (fd >= 0) close(fd);
@@ -199,6 +200,10 @@ public:
                         auto d = describe(sh->crumbs[worker_id].unit.load(), sh->crumbs[worker_id].sub.load(), sh->crumbs[worker_id].variant.load());
                         std::string cs = sh->crumbs[worker_id].text[0] ? std::string(sh->crumbs[worker_id].text) : d.second;
                         violation({d.first, "leak", cs, "LeakSanitizer reports memory that is no longer reachable after this unit (last case of the unit shown)"});
+                        // LSan would report the same blocks again after every later unit: continue in a fresh process
+                        if (vf) fclose(vf);
+                        fflush(nullptr);
+                        _exit(3);
                     }
 #endif
                     if (one_unit_per_process) break;
@@ -237,6 +242,7 @@ public:
             if (w < 0) continue;
             pids[w] = -1;
             bool normal = WIFEXITED(status) && WEXITSTATUS(status) == 0;
+            if (WIFEXITED(status) && WEXITSTATUS(status) == 3) { spawn(w, false, 0, 0); continue; }   // worker asked to be replaced (after a leak report)
             if (normal) {
                 if (one_unit_per_process && sh->next_unit.load() < total_units && !sh->capped.load()) { spawn(w, false, 0, 0); continue; }
                 --alive; continue;
@@ -252,6 +258,13 @@ public:
             // abnormal: attribute to breadcrumb
             Crumb &c = sh->crumbs[w];
             int act = c.active.load();
+            if (!act) {
+                // died while NOT inside a case: that is harness code (enumerator, oracle, bookkeeping), never the library
+                fprintf(stderr, "HARNESS-ERROR worker %d died outside a case (status 0x%x); last case: %s\n", w, status, c.text[0] ? c.text : "(numeric crumb)");
+                for (int i = 0; i < nworkers; ++i) if (pids[i] > 0) kill(pids[i], SIGKILL);
+                while (waitpid(-1, nullptr, 0) > 0) {}
+                exit(2);
+            }
             uint64_t unit = c.unit.load(), sub = c.sub.load(), var = c.variant.load();
             auto d = describe(unit, sub, var);
             Violation v;
